@@ -372,7 +372,7 @@ fn run(plan: &Plan, ctx: &mut Ctx) -> R {
                 _ => 2,
             };
             let product: u64 = (0..nops).map(|j| tsz_of[resolve(op.a[j], caller, &own, n)]).fold(1u64, |a, b| a.saturating_mul(b.max(1)));
-            if (0..nops).any(|j| big[resolve(op.a[j], caller, &own, n)]) || (!compress && product > 40_000) {
+            if (0..nops).any(|j| big[resolve(op.a[j], caller, &own, n)]) || (!compress && product > 40_000) || product > 250_000 {
                 kind = K_VAR;
                 r.kind = K_VAR;
                 ctx.count("operand-too-big-degraded-to-var", 1);
